@@ -102,7 +102,10 @@ def run_sequence(pool, seq, ending, n, tick=None):
         b = h.submit(T(f"b{n}", "true", wd), deps=[a])
     except Exception as e:
         return [f"healthy client H could not submit: {type(e).__name__}: {e}"]
-    m = socket.create_connection(("127.0.0.1", pool.port), timeout=15)
+    try:
+        m = socket.create_connection(("127.0.0.1", pool.port), timeout=15)
+    except OSError as e:
+        return [f"pool does not accept a new connection (M's own) although H is being served: {type(e).__name__}: {e}"]
     try:
         for label in seq:
             for chunk in M_BYTES[label]:
